@@ -39,7 +39,7 @@ ASSEMBLIES = [None, "hg19", "mm10", "GRCh38.p13", "dm6_custom-build", "T2T-CHM13
 
 def plan(tier, seed):
     n = 16 if tier == "quick" else 48
-    per = 90 if tier == "quick" else 250
+    per = 90 if tier == "quick" else 600
     return [{"kind": "rt", "sub": i, "cases": per} for i in range(n)]
 
 
